@@ -420,7 +420,8 @@ class MacroProgram(ElementProgram):
             CASE = skip
         else:
             value = nodes.Value(clause)
-            for switch in reversed(self._switches):
+            # (the last entry is this element's own tal:switch, if any)
+            for switch in reversed(self._switches[:-1]):
                 if switch is not None:
                     break
             else:
